@@ -577,6 +577,16 @@ func (n *Node) WriteFrameExcept(exceptChannel *Channel, fr frame.Frame) error {
 }
 
 func (n *Node) pushEvent(evt Event) {
+	// once the node is terminating, stop emitting events. Otherwise the select below
+	// picks randomly between the two ready cases, and an event of a channel
+	// could be delivered after a previous one of the same channel has been dropped
+	// (i.e. a frame of a channel whose open event was never delivered).
+	select {
+	case <-n.terminate:
+		return
+	default:
+	}
+
 	select {
 	case n.chEvent <- evt:
 	case <-n.terminate:
